@@ -140,17 +140,48 @@ func (t *errTracer) originsOfVal(fn *ssa.Function, v ssa.Value, path []string, s
 			}
 			return here(what, x.Pos())
 		}
-		if callee := x.Call.StaticCallee(); callee != nil && len(callee.Blocks) > 0 && inRepoScope(callee) {
-			return t.originsOfFn(callee, path)
+		if callee := x.Call.StaticCallee(); callee != nil && len(callee.Blocks) > 0 && inRepoScope(callee) && errResultIndex(callee) < 0 {
+			// a repo error CONSTRUCTOR (returns a concrete error type, e.g. tss.NewError(err, fmt, ...)): the origin is the
+			// error it wraps, or the constructor itself when it wraps none
+			var out []errOrigin
+			wrapped := false
+			for _, a := range x.Call.Args {
+				if isErrorType(a.Type()) {
+					wrapped = true
+					out = append(out, t.originsOfVal(fn, a, path, seen)...)
+				}
+			}
+			if !wrapped {
+				return here("fresh:"+name, x.Pos())
+			}
+			return out
 		}
-		if callee := x.Call.StaticCallee(); callee != nil && callee.Parent() != nil {
-			return t.originsOfFn(callee, path)
+		if callee := x.Call.StaticCallee(); callee != nil && len(callee.Blocks) > 0 && (inRepoScope(callee) || callee.Parent() != nil) {
+			var out []errOrigin
+			for _, o := range t.originsOfFn(callee, path) {
+				// an error that the callee merely passes on (or wraps) from one of its parameters is traced in the caller
+				if strings.HasPrefix(o.What, "param#") && o.Fn == FuncKey(callee) {
+					var idx int
+					fmt.Sscanf(o.What, "param#%d", &idx)
+					if idx < len(x.Call.Args) {
+						out = append(out, t.originsOfVal(fn, x.Call.Args[idx], path, seen)...)
+						continue
+					}
+				}
+				out = append(out, o)
+			}
+			return out
 		}
 		if name == "" {
 			name = "<dynamic call>"
 		}
 		return here("external:"+name, x.Pos())
 	case *ssa.Parameter:
+		for i, p := range fn.Params {
+			if p == x {
+				return here(fmt.Sprintf("param#%d", i), fn.Pos())
+			}
+		}
 		return here("param:"+frozenParamName(x), fn.Pos())
 	}
 	return here("unknown:"+clip(Render(v).String(), 60), v.Pos())
@@ -158,8 +189,13 @@ func (t *errTracer) originsOfVal(fn *ssa.Function, v ssa.Value, path []string, s
 
 // ErrorCensus: origins of every error a root can return ⊆ table.
 func (r *Report) ErrorCensus(key string, roots []*ssa.Function, table []errAllow, min int) {
+	r.ErrorCensusOf(key, roots, table, min, "every origin of an error that a begin/end-block root can return (= chain halt) is a reviewed instance",
+		"can reach the return of a begin/end-block root", "FinalizeBlock fails and the chain halts")
+}
+
+// ErrorCensusOf: the same census for any set of root functions (e.g. "the only reasons share decryption may fail").
+func (r *Report) ErrorCensusOf(key string, roots []*ssa.Function, table []errAllow, min int, d, reach, consequence string) {
 	w := r.W
-	d := "every origin of an error that a begin/end-block root can return (= chain halt) is a reviewed instance"
 	t := &errTracer{w: w, memo: map[*ssa.Function][]errOrigin{}, active: map[*ssa.Function]bool{}}
 	all := map[string]errOrigin{}
 	for _, root := range roots {
@@ -188,7 +224,7 @@ func (r *Report) ErrorCensus(key string, roots []*ssa.Function, table []errAllow
 		if a, ok := allowed[k]; ok {
 			r.OK(key+"|"+k, d, o.Pos, a.Why)
 		} else {
-			r.Bad(key+"|"+k, d, o.Pos, fmt.Sprintf("%s in %s can reach the return of a begin/end-block root via %s: FinalizeBlock fails and the chain halts; not in the reviewed table", o.What, o.Fn, strings.Join(o.Path, " -> ")), o.Path...)
+			r.Bad(key+"|"+k, d, o.Pos, fmt.Sprintf("%s in %s %s via %s: %s; not in the reviewed table", o.What, o.Fn, reach, strings.Join(o.Path, " -> "), consequence), o.Path...)
 		}
 	}
 	for _, a := range table {
